@@ -46,6 +46,11 @@ pub fn judge_one(ctx: &mut Ctx, rd: &Rendered, sp: &Sp, cfg: &Cfg, step: u8, gen
         ctx.skip("tag recognition in dispute on this rendering (KF-C08)");
         return;
     }
+    let from_gate = matches!(gen_name, "ast-crlf" | "replay");
+    if (from_gate && !judge::spans_subset(rd, sp)) || (!from_gate && !judge::spans_consistent(rd, sp)) {
+        ctx.skip("delimiter characters occur outside tags under this spelling (generator self-check)");
+        return;
+    }
     let has_cr = rd.text.contains('\r');
     if has_cr {
         ctx.count("documents-with-CR (line ranges judged, rendering of the lines not)");
@@ -233,13 +238,29 @@ pub fn run(ctx: &mut Ctx) {
         let rd = render(&d, &sp);
         judge_one(ctx, &rd, &sp, &cfg, STEP, "unwrap-layouts");
     }
+    // ---- big documents: hundreds / thousands of items, long lines, characters that need JSON
+    // escaping, regions beyond byte 65 535 and line 10 000
+    let total = 40 * scale;
+    for i in (shard..total).step_by(n as usize) {
+        if ctx.past(if is16 { 0.7 } else { 0.9 }) {
+            break;
+        }
+        let mut r = Rng::for_case(seed, 85, i);
+        let sp = default_sp();
+        let mut gcd = gen_big_doc(&mut r, &sp, i % 2 == 0, true);
+        if i % 3 == 0 {
+            make_nothing_ready(&mut gcd, &mut r);
+        }
+        let rd = render(&gcd, &sp);
+        judge_one(ctx, &rd, &sp, &cfg, STEP, "ast-big");
+    }
     // ---- bounded-exhaustive line sequences
     super::docs::lineseq_stage(ctx, if quick { 6 } else { 8 }, if is16 { 0.75 } else { 0.99 }, true, |ctx, rd, sp| {
         judge_one(ctx, rd, sp, &step_cfg(STEP), STEP, "lineseq");
     });
     if is16 {
         // ---- high line numbers: the same documents pushed down by N lines (number column width)
-        for (k, npre) in [8usize, 97, 98, 99, 998, 999, 9_998, 99_998].iter().enumerate() {
+        for (k, npre) in [8usize, 97, 98, 99, 998, 999, 9_998, 99_998, 999_998].iter().enumerate() {
             let reps: u64 = if *npre > 5_000 { 1 } else if quick { 8 } else { 64 };
             for j in 0..reps {
                 let i = (k as u64) * 1000 + j;
